@@ -31,7 +31,7 @@ type stubCase struct {
 	idx      int // case index within the run
 	scenario string
 	method   *idl.Method
-	flags    int // 0, 1 (more), 2 (oneway), 8 (upgrade)
+	flags    int  // 0, 1 (more), 2 (oneway), 8 (upgrade)
 	viaSend  bool // flags == 8: pass varlink.Upgrade to the generated Send stub instead of calling the Upgrade stub (same wire form)
 	ins      []*gval
 	replies  []stubReply // what the implementation does, in order
